@@ -291,10 +291,39 @@ func c18r6(p *Program, r *Report) {
 		return
 	}
 	sp := &ftSpec{p: p}
-	sp.isFlagsByte = func(fn *FuncInfo, e ast.Expr) bool { return p.canonText(fn, e) == "f.buf[1]" }
+	// the flags byte: element 1 of the framer's write buffer (whatever the receiver and the constant are called)
+	isBufFlags := func(fn *FuncInfo, e ast.Expr) bool {
+		x := ast.Unparen(p.expandExpr(fn, e, 0))
+		for {
+			pe, ok := x.(*ast.ParenExpr)
+			if !ok {
+				break
+			}
+			x = ast.Unparen(pe.X)
+		}
+		ix, ok := x.(*ast.IndexExpr)
+		if !ok {
+			return false
+		}
+		base := ast.Unparen(ix.X)
+		for {
+			pe, isP := base.(*ast.ParenExpr)
+			if !isP {
+				break
+			}
+			base = ast.Unparen(pe.X)
+		}
+		sel, isSel := base.(*ast.SelectorExpr)
+		if !isSel || fn.Pkg.TypesInfo.Uses[sel.Sel] == nil || fn.Pkg.TypesInfo.Uses[sel.Sel] != types.Object(p.Field("framer", "buf")) {
+			return false
+		}
+		k, isK := constInt(fn.Pkg.TypesInfo, ix.Index)
+		return isK && k == 1
+	}
+	sp.isFlagsByte = isBufFlags
 	sp.clearsBit = func(fn *FuncInfo, as *ast.AssignStmt) (bool, bool) {
 		for _, l := range as.Lhs {
-			if strings.ReplaceAll(exprStr(l), " ", "") == "f.buf[1]" {
+			if isBufFlags(fn, l) {
 				return true, as.Tok == token.AND_NOT_ASSIGN
 			}
 		}
